@@ -41,6 +41,26 @@ class IntV:
         self.p, self.ty, self.modof, self.sel = DP.lift(p), ty, modof, sel
 
 
+class BvV:
+    """machine word in the BV domain (bvdomain.B)"""
+    __slots__ = ("b", "ty")
+
+    def __init__(self, b, ty):
+        self.b, self.ty = b, ty
+
+
+def to_bv(v, ty=None):
+    from bvdomain import B
+    if isinstance(v, BvV):
+        return v
+    if isinstance(v, IntV) and v.p.is_const():
+        w, _ = tbits(v.ty)
+        return BvV(B.const(v.p.cval(), w), v.ty)
+    if isinstance(v, BoolV):
+        return BvV(B.const(1 if v.b else 0, 1), "bool")
+    raise Unsupported("cannot move %r into the BV domain" % type(v).__name__)
+
+
 class XorV:
     """a ^ b of two symbolic integers, kept symbolic until it is masked and folded back (constant-time select idiom)"""
     __slots__ = ("a", "b", "ty")
@@ -249,6 +269,8 @@ class Interp:
             if op in ("BitAnd", "BitOr", "BitXor", "Eq", "Ne"):
                 f = {"BitAnd": lambda x, y: x and y, "BitOr": lambda x, y: x or y, "BitXor": lambda x, y: x != y, "Eq": lambda x, y: x == y, "Ne": lambda x, y: x != y}[op]
                 return BoolV(f(a.b, b.b))
+        if isinstance(a, BvV) or isinstance(b, BvV):
+            return self.bv_binop(op, a, b, where)
         # constant-time select idiom:  x ^= mask & (x ^ y)   with mask all-or-nothing
         if op == "BitAnd":
             for (m, x) in ((a, b), (b, a)):
@@ -365,6 +387,40 @@ class Interp:
                 return IntV(q if op == "Div" else r, ty)
             raise Unsupported("symbolic %s at %s" % (op, where))
         raise Unsupported("binop %s at %s" % (op, where))
+
+    def bv_binop(self, op, a, b, where):
+        from bvdomain import B
+        if op in ("Shl", "ShlUnchecked", "Shr", "ShrUnchecked"):
+            x = to_bv(a)
+            if isinstance(b, BvV):
+                if not b.b.is_const():
+                    raise Unsupported("symbolic shift amount at %s" % where)
+                n = b.b.cval()
+            else:
+                n = self.cint(b, where)
+            w, signed = tbits(x.ty)
+            if not (0 <= n < w):
+                raise Panic("shift amount out of range at %s" % where)
+            if op.startswith("Shl"):
+                return BvV(x.b.shl(n), x.ty)
+            return BvV(x.b.ashr(n) if signed else x.b.shr(n), x.ty)
+        x, y = to_bv(a), to_bv(b)
+        ty = x.ty
+        if op in ("Add", "AddUnchecked", "Sub", "SubUnchecked", "Mul", "MulUnchecked"):
+            r = {"A": x.b + y.b, "S": x.b - y.b, "M": x.b * y.b}[op[0]]
+            return BvV(r, ty)
+        if op in ("AddWithOverflow", "SubWithOverflow", "MulWithOverflow"):
+            raise Unsupported("checked arithmetic on BV-domain values at %s (kernels use wrapping operations)" % where)
+        if op == "BitAnd":
+            return BvV(x.b & y.b, ty)
+        if op == "BitOr":
+            return BvV(x.b | y.b, ty)
+        if op == "BitXor":
+            return BvV(x.b ^ y.b, ty)
+        if op in ("Lt", "Le", "Gt", "Ge", "Eq", "Ne") and x.b.is_const() and y.b.is_const():
+            u, v = x.b.cval(), y.b.cval()
+            return BoolV({"Lt": u < v, "Le": u <= v, "Gt": u > v, "Ge": u >= v, "Eq": u == v, "Ne": u != v}[op])
+        raise Unsupported("BV binop %s at %s" % (op, where))
 
     # ------------------------------------------------------------------ memory
     def nav(self, cell, path):
@@ -496,6 +552,9 @@ class Interp:
     def cast(self, v, ty, kind):
         if kind.startswith("PointerCoercion") or kind in ("PtrToPtr", "Transmute") and isinstance(v, RefV):
             return v
+        if isinstance(v, BvV):
+            w, _ = tbits(ty)
+            return BvV(v.b.resize(w, signed=tbits(v.ty)[1]), ty)
         if isinstance(v, BoolV):
             return IntV(1 if v.b else 0, ty)
         if isinstance(v, IntV):
@@ -515,6 +574,8 @@ class Interp:
         if k == "unop":
             v = self.operand(fr, rv[2])
             if rv[1] == "Not":
+                if isinstance(v, BvV):
+                    return BvV(~v.b, v.ty)
                 if isinstance(v, BoolV):
                     return BoolV(not v.b)
                 lo, hi = trange(v.ty)
@@ -553,10 +614,14 @@ class Interp:
             vals = [self.operand(fr, o) for o in rv[2]]
             if last in VARIANT_IDX:
                 return EnumV(last, vals)
+            if not vals and re.match(r"^[A-Z]\w*$", last) and "::" in name:
+                return EnumV(last, [])      # field-less enum variant of a crate enum (e.g. LastBlock::Yes)
             return AggV(vals)
         if k == "discr":
             v = self.read(self.lvalue(fr, rv[1]))
             if isinstance(v, EnumV):
+                if v.variant not in VARIANT_IDX:
+                    VARIANT_IDX[v.variant] = 100 + len(VARIANT_IDX)   # only equality of discriminants is ever used for crate enums
                 return IntV(VARIANT_IDX[v.variant], "isize")
             raise Unsupported("discriminant of %r" % type(v).__name__)
         raise Unsupported("rvalue %s" % k)
@@ -674,10 +739,47 @@ class Interp:
         for (rx, hook) in getattr(self, "hooks", []) or []:
             if rx.search(fname):
                 return hook(argv, where, fname)
+        if re.search(r"(^|::)(read|write)_u(32|64)v_(le|be)$", fname):
+            return self.builtin(fname, argv, where)   # unsafe pointer loops: summarised by their endianness contract (decided by E1 harnesses c20_misc_*)
         f = self.find_fn(fname, len(argv))
+        if f is None:
+            f = self.find_trait_impl(fname, len(argv))
         if f is not None:
             return self.run(f, argv)
         return self.builtin(fname, argv, where)
+
+    def find_trait_impl(self, fname, nargs):
+        """call sites name trait methods `<T as Trait<U>>::m`; the bodies are printed `mod::<impl at file:..>::m(_1: T, _2: U)`.
+        Resolve by method name, arity and the (reference-stripped, last-segment) types of the first two parameters. Only types
+        defined in the crate (no core:: paths, no slices/arrays/primitives)."""
+        m = re.match(r"^<(&(?:mut )?)?([A-Za-z_][\w:]*) as (?:[\w:]*::)?(\w+)(?:<(&(?:mut )?)?([A-Za-z_][\w:]*)>)?>::(\w+)$", fname)
+        if not m:
+            return None
+        t, u, meth = m.group(2), m.group(5), m.group(6)
+        if re.match(r"^(core|alloc|std)::", t) or re.match(r"^(u|i)(8|16|32|64|128|size)$|^bool$", t):
+            return None
+        tl = t.split("::")[-1]
+        ul = u.split("::")[-1] if u else None
+        strip = lambda ty: re.sub(r"^&(?:'\w+ )?(?:mut )?", "", ty.strip()).split("<")[0].split("::")[-1]
+        hits = []
+        for name, l in self.fns.items():
+            if not re.search(r"<impl at [^>]*>::%s$" % re.escape(meth), name):
+                continue
+            for f in l:
+                if f.ctfe or len(f.args) != nargs or not f.args:
+                    continue
+                if strip(f.args[0][1]) != tl:
+                    continue
+                if ul is not None and len(f.args) >= 2 and strip(f.args[1][1]) != ul:
+                    continue
+                hits.append(f)
+        if len(hits) == 1:
+            return hits[0]
+        if len(hits) > 1 and ul is None and nargs >= 2:
+            same = [f for f in hits if strip(f.args[1][1]) == tl]    # `impl Add for T` means Add<T>
+            if len(same) == 1:
+                return same[0]
+        return None
 
     def slice_of(self, r, start, end, where):
         n = self.length_of((r.cell, r.path, r.sl))
@@ -724,6 +826,30 @@ class Interp:
             raise Panic("unwrap on %s at %s" % (v.variant, where))
         # ---- integer methods
         m = re.search(r"core::num::<impl (\w+)>::(\w+)$", n)
+        if m and any(isinstance(x, BvV) for x in a) or (m and m.group(2) in ("from_le_bytes", "from_be_bytes") and isinstance(a[0], AggV) and any(isinstance(x, BvV) for x in a[0].f)):
+            from bvdomain import B
+            ty, meth = m.group(1), m.group(2)
+            w, _ = tbits(ty)
+            if meth in ("from_le_bytes", "from_be_bytes"):
+                bs = [to_bv(x).b for x in a[0].f]
+                if meth == "from_be_bytes":
+                    bs = list(reversed(bs))
+                return BvV(B.concat_le(bs), ty)
+            x = to_bv(a[0])
+            if meth in ("to_le_bytes", "to_be_bytes"):
+                out = [BvV(x.b.byte(i), "u8") for i in range(w // 8)]
+                if meth == "to_be_bytes":
+                    out.reverse()
+                return AggV(out)
+            if meth in ("wrapping_add", "wrapping_sub", "wrapping_mul"):
+                y = to_bv(a[1])
+                return BvV({"wrapping_add": x.b + y.b, "wrapping_sub": x.b - y.b, "wrapping_mul": x.b * y.b}[meth], ty)
+            if meth in ("rotate_left", "rotate_right"):
+                k = self.cint(a[1], where) if not isinstance(a[1], BvV) else a[1].b.cval()
+                return BvV(x.b.rotl(k) if meth == "rotate_left" else x.b.rotr(k), ty)
+            if meth == "swap_bytes":
+                return BvV(B.concat_le([x.b.byte(w // 8 - 1 - i) for i in range(w // 8)]), ty)
+            raise Unsupported("BV method %s at %s" % (meth, where))
         if m:
             ty, meth = m.group(1), m.group(2)
             if meth in ("from_le_bytes", "from_be_bytes"):
@@ -764,6 +890,50 @@ class Interp:
             if meth == "min" or meth == "max":
                 x, y = self.cint(a[0], where), self.cint(a[1], where)
                 return IntV(min(x, y) if meth == "min" else max(x, y), ty)
+        m = re.search(r"impl \[\w+\]>::get_unchecked(_mut)?(::<usize>)?$", n) or re.search(r"\]>::get_unchecked(_mut)?(::<usize>)?$", n)
+        if m:
+            r, i = a[0], self.cint(a[1], where)
+            ln = self.length_of((r.cell, r.path, r.sl))
+            if not (0 <= i < ln):
+                raise Panic("get_unchecked index %d out of bounds (len %d): undefined behaviour at %s" % (i, ln, where))
+            base = r.sl[0] if r.sl else 0
+            return RefV(r.cell, r.path + (base + i,), None)
+        m = re.search(r"(^|::)(read|write)_u(32|64)v_(le|be)$", n)
+        if m:
+            from bvdomain import B
+            rw, bits, end = m.group(2), int(m.group(3)), m.group(4)
+            nb = bits // 8
+            if rw == "read":
+                dst, src = a[0], a[1]
+                sv = self.read((src.cell, src.path, src.sl)).f
+                dn = self.length_of((dst.cell, dst.path, dst.sl))
+                if dn * nb != len(sv):
+                    raise Panic("read_u%dv_%s length mismatch at %s" % (bits, end, where))
+                words = []
+                for k in range(dn):
+                    bs = [to_bv(x).b for x in sv[nb * k:nb * k + nb]]
+                    if end == "be":
+                        bs = list(reversed(bs))
+                    words.append(BvV(B.concat_le(bs), "u%d" % bits))
+                tgt = self.nav(dst.cell, dst.path)
+                b0 = dst.sl[0] if dst.sl else 0
+                tgt.f[b0:b0 + dn] = words
+                return UnitV()
+            dst, src = a[0], a[1]
+            sv = self.read((src.cell, src.path, src.sl)).f
+            dn = self.length_of((dst.cell, dst.path, dst.sl))
+            if dn != nb * len(sv):
+                raise Panic("write_u%dv_%s length mismatch at %s" % (bits, end, where))
+            out = []
+            for x in sv:
+                bs = [BvV(to_bv(x).b.byte(i), "u8") for i in range(nb)]
+                if end == "be":
+                    bs.reverse()
+                out += bs
+            tgt = self.nav(dst.cell, dst.path)
+            b0 = dst.sl[0] if dst.sl else 0
+            tgt.f[b0:b0 + dn] = out
+            return UnitV()
         # ---- Range<usize> iteration
         if re.search(r"<(core::ops::)?Range<\w+> as IntoIterator>::into_iter$", n):
             return a[0]
